@@ -28,3 +28,18 @@ func (p *KeysPool) VerifC16PutKeys(author common.Address, key *types.PublicFlipK
 	delete(p.privateKeysArrayCache, author)
 	p.privateKeysMutex.Unlock()
 }
+
+// VerifC16PutPublicKey / VerifC16PutPackage place only what putPublicFlipKey / putPrivateFlipKeysPackage store once a
+// message has passed validation (the two map writes, nothing else), so that arrival orders can be driven: the public
+// key of an author may be known, and looked up, before its keys package arrives.
+func (p *KeysPool) VerifC16PutPublicKey(author common.Address, key *types.PublicFlipKey) {
+	p.publicKeyMutex.Lock()
+	p.flipKeys[author] = key
+	p.publicKeyMutex.Unlock()
+}
+
+func (p *KeysPool) VerifC16PutPackage(author common.Address, keysPackage *types.PrivateFlipKeysPackage) {
+	p.privateKeysMutex.Lock()
+	p.flipKeyPackages[author] = keysPackage
+	p.privateKeysMutex.Unlock()
+}
